@@ -63,7 +63,16 @@ def rule_update_table(ctx):
             bad.append(("verify", (dup, mem, st, nw, sg), sorted(reach)))
         if dup is True and "err" not in reach:
             bad.append(("dup-not-rejected", (dup, mem, st, nw, sg), sorted(reach)))
-    ctx.ob(R, "entry table", not bad, "32 valuations: stored iff eligible and signature valid; verified iff eligible; duplicates rejected" if not bad else
+    # must-store: with the insert removed, an eligible entry with a valid signature cannot complete its iteration
+    if not bad and head is not None and ins:
+        cfgf = ctx.cfg(f, with_cancel=False)
+        for st in ("None", "Some"):
+            val = {"duplicate in batch": (True if dup_by_insert else False), "member": True, "stored": st, "newer": True, "signature": True}
+            r = W.reachable(val, head, frozenset(ins))
+            back = [x for x in r if x != head and any(y == head for _, y in cfgf.succ[x])] if len(r) > 1 else []
+            if back:
+                bad.append(("must-insert", tuple(val.values()), ["iteration completes without storing the entry"]))
+    ctx.ob(R, "entry table", not bad, "32 valuations: stored iff eligible and signature valid (may and must); verified iff eligible; duplicates rejected" if not bad else
            "ValidatorAddrs::update deviates from the specified table (atoms %s): %s" % (names, bad[:3]), f.loc())
     # the batch duplicate test is on the signer KEY (two different announcements of one validator in a batch are a duplicate)
     dup_calls = [c for c in T.calls() if c["q"].endswith(("HashSet::contains", "HashSet::insert")) and not chain(T.args_of(c)[0])[1][-1:] == ["0"]]
